@@ -69,3 +69,21 @@ M("C17", "data-halfwidth-from-ends", [(IU, "        x1 = xvals.min()\n        x2
 M("C17", "mirror-index-off-by-one", [(CG, "x[npts+1-i-1] = xm + xl*z;", "x[npts+1-i-(i>2?1:0)] = xm + xl*z;")],
   "the first two mirrored abscissae are stored one slot too far (heap write past the array for i=1)")
 M("C17", "control-do-while-spelled", [(CG, "m = (npts + 1)/2;", "m = (npts + 1) >> 1;")], control=True)
+
+# ---- C06
+NU = "esutil/numpy_util.py"
+M("C06", "high-clamp-removed", [(NU, "    if is_string or arr2.max() > arr1.max():\n        (bad,) = np.where(sub1 == arr1.size)\n        sub1[bad] = arr1.size - 1\n",
+                                 "    if is_string:\n        (bad,) = np.where(sub1 == arr1.size)\n        sub1[bad] = arr1.size - 1\n")],
+  "numeric probes above the maximum of the first array index out of bounds")
+M("C06", "presorted-skips-equality", [(NU, "        (sub2,) = np.where(arr1[sub1] == arr2)\n        sub1 = sub1[sub2]",
+                                       "        (sub2,) = np.where((arr1[sub1] == arr2) | (sub1 == 0))\n        sub1 = sub1[sub2]")],
+  "presorted path reports probes below the minimum as matches of element 0")
+M("C06", "rem_dup-keeps-smallest-flag", [(NU, "            if sflag[i] > f:", "            if sflag[i] < f:")])
+M("C06", "match-unique-check-sampled", [(NU, "    test = np.unique(arr1)\n    if test.size != arr1.size:", "    test = np.unique(arr1[:64])\n    if test.size != arr1[:64].size:")],
+  "repeats beyond the first 64 elements of the first array are not detected")
+M("C06", "match-stable-sort-strings", [(NU, "    sub1 = np.searchsorted(arr1, arr2, sorter=st1)", "    sub1 = np.searchsorted(arr1, arr2, sorter=st1, side='right' if (is_string and arr1.size > 100) else 'left')")],
+  "long string tables searched from the right miss every match")
+M("C06", "unique-values-from-sorted", [(NU, "    keep = keep[0: nkeep + 1]\n    if values:\n        return arr[keep]", "    keep = keep[0: nkeep + 1]\n    if values:\n        return arr[s[0: nkeep + 1]]")],
+  "values=True returns the first nkeep+1 sorted elements rather than the distinct ones")
+M("C06", "control-rem_dup-ge", [(NU, "            if sflag[i] > f:", "            if sflag[i] >= f:")],
+  "picks another index carrying the same maximum flag", control=True)
